@@ -199,7 +199,7 @@ def fun(x):
 
 def other(x):
     """the bystander's function: same arguments, other results"""
-    return ('other', x if not isinstance(x, str) else x[-2:])
+    return 'other-%s' % (x if not isinstance(x, str) else x[-2:])        # (a value every backend can store)
 
 
 class Runner:
